@@ -73,6 +73,39 @@ entry("prims", "C08_prims.c", [W], ["c08w_all"], [S("all", 20)], quick_opts=OPTS
 entry("ccopy", "C08_ccopy.c", ["src/codec/ccopy.c"], ["br_ccopy"], [S("L8", 12, LEN=8), S("L33", 36, LEN=33, tier="thorough")],
       quick_opts=OPTS, desc="br_ccopy", secret="ctl, dst and src contents", public="len, buffer addresses")
 
+# (b) big integers
+import glob as _glob
+
+
+def _int_tus(w):
+    return sorted("src/int/" + os.path.basename(f) for f in _glob.glob(os.path.join(REPO, "src", "int", "i%d_*.c" % w))) + \
+        ["src/codec/ccopy.c", "src/int/i32_div32.c"]
+
+
+BIG = [  # (fn number, name, sizes)
+    (1, "add", {}), (2, "sub", {}), (3, "montymul", {}), (4, "muladd_small", {}), (5, "decode_mod", {}), (6, "encode", {}),
+    (7, "modpow", {}), (8, "modpow_opt", {}), (9, "to_monty", {}), (10, "from_monty", {}), (11, "decode_reduce", {}),
+    (12, "reduce", {}), (13, "iszero", {}), (14, "bit_length", {}),
+]
+for iw in (15, 31):
+    tus = _int_tus(iw)
+    for (fn, nm, _) in BIG:
+        szs = []
+        for bits, tier in (((42, "quick"), (48, "thorough"), (77, "thorough")) if iw == 15 else ((75, "quick"), (93, "thorough"))):
+            d = dict(IW=iw, FN=fn, BITS=bits)
+            tag = "b%d" % bits
+            if nm == "modpow_opt":
+                ln = ((bits + 15) >> 4) if iw == 15 else ((bits + 31) >> 5)
+                mw = ln + 1 + ((ln + 1) & 1)
+                szs.append(S(tag + "-w1", 40, tier=tier, TW=2 * mw, **d))
+                szs.append(S(tag + "-w2", 40, tier=tier, TW=5 * mw, **d))
+            else:
+                szs.append(S(tag, 40, tier=tier, **d))
+        entry("i%d_%s" % (iw, nm), "C08_bigint.c", tus, ["br_i%d_%s" % (iw, nm)], szs, real_units=tus,
+              quick_opts=OPTS if iw == 15 else ("Os",),
+              desc="br_i%d_%s" % (iw, nm), secret="all value words of all operands incl. modulus and m0i, exponent/source bytes, ctl",
+              public="announced bit length (header word), byte/word lengths, addresses")
+
 # ---------------------------------------------------------------------------
 # generation + translation validation
 # ---------------------------------------------------------------------------
@@ -99,27 +132,85 @@ def tu_path(t):
     return t if os.path.isabs(t) else os.path.join(REPO, t)
 
 
+_cache = {}
+_cache_lock = threading.Lock()
+
+
+def once(key, fn):
+    """run fn() once per key per process (thread-safe), return its result"""
+    with _cache_lock:
+        ent = _cache.get(key)
+        if ent is None:
+            ent = _cache[key] = {"lock": threading.Lock(), "done": False, "res": None}
+    with ent["lock"]:
+        if not ent["done"]:
+            ent["res"] = fn()
+            ent["done"] = True
+    return ent["res"]
+
+
+def clang_ll(t, opt, config, cdefs):
+    """IR of one translation unit (compiled once per run and (opt, config, defs))"""
+    key = ("ll", t, opt, config, tuple(cdefs))
+
+    def f():
+        h = hashlib.sha1(repr(key).encode()).hexdigest()[:8]
+        ll = os.path.join(GEN, "tu_%s_%s_%s.ll" % (re.sub(r"[^A-Za-z0-9]", "_", os.path.basename(t)), opt, h))
+        cmd = [CLANG, "-" + opt, "-fno-vectorize", "-fno-slp-vectorize", "-fno-unroll-loops", "-S", "-emit-llvm", "-w",
+               "-I" + os.path.join(REPO, "inc"), "-I" + os.path.join(REPO, "src"), "-I" + HARN] + cfg_defs(config) + list(cdefs) + [tu_path(t), "-o", ll]
+        rc, out = sh(cmd)
+        return (rc, out, ll)
+    return once(key, f)
+
+
+def real_obj(t, config, cdefs):
+    """gcc object of one real translation unit for the translation validation (once per run)"""
+    key = ("obj", t, config, tuple(cdefs))
+
+    def f():
+        h = hashlib.sha1(repr(key).encode()).hexdigest()[:8]
+        o = os.path.join(GEN, "real_%s_%s.o" % (re.sub(r"[^A-Za-z0-9]", "_", os.path.basename(t)), h))
+        cmd = ["gcc", "-O1", "-w", "-c", "-I" + os.path.join(REPO, "inc"), "-I" + os.path.join(REPO, "src"), "-I" + HARN] + cfg_defs(config) + list(cdefs) + [tu_path(t), "-o", o]
+        rc, out = sh(cmd)
+        return (rc, out, o)
+    return once(key, f)
+
+
+def linked_module(e, opt):
+    key = ("mod", tuple(e["tus"]), opt, e["config"], tuple(e["cdefs"]))
+
+    def f():
+        lls = []
+        for t in e["tus"]:
+            rc, out, ll = clang_ll(t, opt, e["config"], e["cdefs"])
+            if rc != 0:
+                return (None, "clang failed on %s: %s" % (t, out[-400:]))
+            lls.append(ll)
+        h = hashlib.sha1(repr(key).encode()).hexdigest()[:10]
+        allll = os.path.join(GEN, "mod_%s_%s.ll" % (opt, h))
+        if len(lls) > 1:
+            rc, out = sh([LLVM_LINK, "-S"] + lls + ["-o", allll])
+            if rc != 0:
+                return (None, "llvm-link failed: " + out[-400:])
+        else:
+            allll = lls[0]
+        try:
+            return (ir2c.Module(open(allll).read()), allll)
+        except ir2c.Unsupported as ex:
+            return (None, "ir2c refused (module level): %s" % ex)
+        except Exception as ex:
+            return (None, "ir2c crashed (module level): %r" % (ex,))
+    return once(key, f)
+
+
 def gen_one(e, opt):
     """clang + llvm-link + ir2c for one (entry, opt). Returns dict(ok, file, reason, funcs, ninstr, sites)."""
     base = "%s_%s" % (e["name"], opt)
-    lls = []
-    for t in e["tus"]:
-        ll = os.path.join(GEN, "%s__%s.ll" % (base, re.sub(r"[^A-Za-z0-9]", "_", os.path.basename(t))))
-        cmd = [CLANG, "-" + opt, "-fno-vectorize", "-fno-slp-vectorize", "-fno-unroll-loops", "-S", "-emit-llvm", "-w",
-               "-I" + os.path.join(REPO, "inc"), "-I" + os.path.join(REPO, "src"), "-I" + HARN] + cfg_defs(e["config"]) + e["cdefs"] + [tu_path(t), "-o", ll]
-        rc, out = sh(cmd)
-        if rc != 0:
-            return dict(ok=False, reason="clang failed on %s: %s" % (t, out[-400:]))
-        lls.append(ll)
-    allll = os.path.join(GEN, base + ".ll")
-    if len(lls) > 1:
-        rc, out = sh([LLVM_LINK, "-S"] + lls + ["-o", allll])
-        if rc != 0:
-            return dict(ok=False, reason="llvm-link failed: " + out[-400:])
-    else:
-        os.replace(lls[0], allll)
+    mod, info = linked_module(e, opt)
+    if mod is None:
+        return dict(ok=False, reason=info)
     try:
-        r = ir2c.translate(open(allll).read(), e["entries"])
+        r = ir2c.Translator(mod).translate(e["entries"])
     except ir2c.Unsupported as ex:
         return dict(ok=False, reason="ir2c refused: %s" % ex)
     except Exception as ex:  # a crash of the translator is a refusal too, never a silent skip
@@ -129,7 +220,7 @@ def gen_one(e, opt):
         f.write(r.c_text)
     with open(os.path.join(GEN, base + ".sites.json"), "w") as f:
         json.dump(r.sites, f)
-    return dict(ok=True, file=base + ".c", funcs=r.funcs, ninstr=r.ninstr, nsites=len(r.sites),
+    return dict(ok=True, file=base + ".c", funcs=r.funcs, ninstr=r.ninstr, nsites=len(r.sites), elided=r.elided, ir=os.path.basename(info),
                 externs=[x[0] for x in r.externs], extern_globals=[x[0] for x in r.extern_globals])
 
 
@@ -141,9 +232,15 @@ def tv_one(e, opt, sz, g):
     """translation validation + observation count for one (entry, opt, size)."""
     tag = "%s_%s_%s" % (e["name"], opt, sz["tag"])
     exe = os.path.join(GEN, tag + ".tv")
+    objs = []
+    for t in e["real_units"]:
+        rc, out, o = real_obj(t, e["config"], e["cdefs"])
+        if rc != 0:
+            return dict(ok=False, reason="TV: gcc failed on real unit %s: %s" % (t, out[-600:]))
+        objs.append(o)
     cmd = ["gcc", "-O1", "-w", "-fno-strict-aliasing", "-DC08_TV=1", "-DNATIVE_REPLAY=1", "-DC08_GEN=\"%s\"" % g["file"], "-I" + GEN, "-I" + HARN,
            "-I" + os.path.join(REPO, "inc"), "-I" + os.path.join(REPO, "src"), "-I" + REPO] + cfg_defs(e["config"]) + e["cdefs"] + size_defs(sz) + \
-          [os.path.join(HARN, e["harness"])] + [tu_path(t) for t in e["real_units"]] + ["-o", exe]
+          [os.path.join(HARN, e["harness"])] + objs + ["-o", exe]
     rc, out = sh(cmd)
     if rc != 0:
         return dict(ok=False, reason="TV build failed: " + out[-1500:])
@@ -156,12 +253,54 @@ def tv_one(e, opt, sz, g):
                 obs_min=int(m.group(4)), obs_max=int(m.group(5)))
 
 
+def run_mode():
+    """(tier, only): what this process was asked to do (queries() needs the generated files of
+    exactly the queries the driver is going to run)"""
+    a = sys.argv
+    tier = os.environ.get("VERIF_TIER", "quick")
+    only = None
+    if len(a) > 1 and a[1] == "list":
+        return "list", None
+    if len(a) > 2 and a[1] == "replay":
+        try:
+            return "thorough", "=" + json.load(open(a[2]))["query"]
+        except Exception:
+            return "thorough", None
+    if "--tier" in a:
+        tier = a[a.index("--tier") + 1]
+    if "--only" in a:
+        only = a[a.index("--only") + 1]
+    return tier, only
+
+
+def qname(e, opt, sz):
+    return "%s-%s-%s" % (e["name"], opt, sz["tag"])
+
+
+def q_tier(e, opt, sz):
+    return sz["tier"] if opt in e["quick_opts"] else "thorough"
+
+
+def wanted(e, opt, sz, tier, only):
+    if tier == "list":
+        return False
+    if tier != "thorough" and q_tier(e, opt, sz) != "quick":
+        return False
+    if only:
+        n = ("control-" if e["control"] else "") + qname(e, opt, sz)
+        if only.startswith("="):
+            return n == only[1:]
+        return only in n
+    return True
+
+
 def prepare():
     global _prepared
     with _lock:
         if _prepared is not None:
             return _prepared
         os.makedirs(GEN, exist_ok=True)
+        tier, only = run_mode()
         jobs = int(os.environ.get("VERIF_JOBS", "6"))
         gens = {}
         tvs = {}
@@ -170,38 +309,53 @@ def prepare():
             futs = {}
             for e in ENTRIES:
                 for opt in e["opts"]:
-                    futs[(e["name"], opt)] = ex.submit(gen_one, e, opt)
+                    if any(wanted(e, opt, sz, tier, only) for sz in e["sizes"]):
+                        futs[(e["name"], opt)] = ex.submit(gen_one, e, opt)
             for k, f in futs.items():
                 gens[k] = f.result()
             futs = {}
             for e in ENTRIES:
                 for opt in e["opts"]:
-                    g = gens[(e["name"], opt)]
-                    if not g["ok"]:
+                    g = gens.get((e["name"], opt))
+                    if g is None or not g["ok"]:
                         continue
                     for sz in e["sizes"]:
-                        futs[(e["name"], opt, sz["tag"])] = ex.submit(tv_one, e, opt, sz, g)
+                        if wanted(e, opt, sz, tier, only):
+                            futs[(e["name"], opt, sz["tag"])] = ex.submit(tv_one, e, opt, sz, g)
             for k, f in futs.items():
                 tvs[k] = f.result()
-        _prepared = dict(gens=gens, tvs=tvs, wall=round(time.time() - t0, 1))
+        _prepared = dict(gens=gens, tvs=tvs, wall=round(time.time() - t0, 1), tier=tier)
         nc = []
         for e in ENTRIES:
             for opt in e["opts"]:
-                g = gens[(e["name"], opt)]
-                if not g["ok"]:
+                g = gens.get((e["name"], opt))
+                if g is not None and not g["ok"]:
                     nc.append("%s -%s: %s" % (e["name"], opt, g["reason"][:200]))
         META["not_covered"] = nc
         return _prepared
 
 
+def write_logh(name, logn):
+    """chunked observation log for CBMC (see harness/C08_rt.h)"""
+    k = (logn + 63) // 64
+    o = ["#define C08_LOGN %d" % logn]
+    for fam, ty in (("v0", "uint64_t"), ("v1", "uint64_t"), ("t0", "uint32_t")):
+        for i in range(k):
+            o.append("static %s c08_%s_%d[64];" % (ty, fam, i))
+        o.append("static %s *const c08_%s[] = {%s};" % (ty, fam, ", ".join("c08_%s_%d" % (fam, i) for i in range(k))))
+    with open(os.path.join(GEN, name), "w") as f:
+        f.write("\n".join(o) + "\n")
+
+
 def mkq(e, opt, sz, tv):
     logn = tv["obs_max"] + 8
-    tier = sz["tier"] if opt in e["quick_opts"] else "thorough"
-    mem = sz["defs"].get("MEMMAX", 0)
+    logh = "%s_%s_%s.log.h" % (e["name"], opt, sz["tag"])
+    write_logh(logh, logn)
+    tier = q_tier(e, opt, sz)
     uw = ["c08_cmploop.0:%d" % (logn + 2)] + sz["unwindset"]
-    return Q("%s-%s-%s" % (e["name"], opt, sz["tag"]), e["harness"],
-             defs=["-I" + GEN, "-DC08_GEN=\"%s_%s.c\"" % (e["name"], opt), "-DC08_LOGN=%d" % logn, "-DVLOG_MAX=20000"] + e["cdefs"] + size_defs(sz),
-             unwind=sz["unwind"], unwindset=uw, fsarray=max(logn + 8, 20010), backend=e["backend"], timeout=e["timeout"] if tier == "quick" else 900,
+    return Q(qname(e, opt, sz), e["harness"],
+             defs=["-I" + GEN, "-DC08_GEN=\"%s_%s.c\"" % (e["name"], opt), "-DC08_LOGN=%d" % logn, "-DC08_LOGH=\"%s\"" % logh, "-DVLOG_MAX=20000"] + e["cdefs"] + size_defs(sz),
+             unwind=sz["unwind"], unwindset=uw, backend=e["backend"], timeout=e["timeout"] if tier == "quick" else 900,
              tier=tier, config=e["config"], checks=False,
              desc="%s at clang -%s, %s: same branch/address/length/call-target/division-operand trace for all secrets (%s); public: %s; %d observations per run" %
                   (e["desc"], opt, sz["tag"], e["secret"], e["public"], tv["obs_max"]))
@@ -214,11 +368,13 @@ def queries():
         if e["control"]:
             continue
         for opt in e["opts"]:
-            if not p["gens"][(e["name"], opt)]["ok"]:
-                continue
+            g = p["gens"].get((e["name"], opt))
             for sz in e["sizes"]:
-                tv = p["tvs"][(e["name"], opt, sz["tag"])]
-                if not tv["ok"]:
+                if p["tier"] == "list":
+                    qs.append(Q(qname(e, opt, sz), e["harness"], tier=q_tier(e, opt, sz), desc="%s at clang -%s, %s" % (e["desc"], opt, sz["tag"])))
+                    continue
+                tv = p["tvs"].get((e["name"], opt, sz["tag"]))
+                if g is None or not g["ok"] or tv is None or not tv["ok"]:
                     continue
                 qs.append(mkq(e, opt, sz, tv))
     return qs
@@ -231,7 +387,9 @@ def extra_checks(tier, repo, builddir):
     total = 0
     for e in ENTRIES:
         for opt in e["opts"]:
-            g = p["gens"][(e["name"], opt)]
+            g = p["gens"].get((e["name"], opt))
+            if g is None:
+                continue
             if not g["ok"]:
                 if e["expect_refused"]:
                     continue
@@ -239,7 +397,9 @@ def extra_checks(tier, repo, builddir):
                             "reason": "NOT COVERED: " + g["reason"], "failed": [], "stats": {}})
                 continue
             for sz in e["sizes"]:
-                tv = p["tvs"][(e["name"], opt, sz["tag"])]
+                tv = p["tvs"].get((e["name"], opt, sz["tag"]))
+                if tv is None:
+                    continue
                 if not tv["ok"]:
                     res.append({"query": "tv-%s-%s-%s" % (e["name"], opt, sz["tag"]), "verdict": "INCONCLUSIVE", "kind": "encoding",
                                 "reason": "translation validation failed (encoder bug or harness bug): " + tv["reason"], "failed": [], "stats": {}})
@@ -249,7 +409,7 @@ def extra_checks(tier, repo, builddir):
                 "desc": "encoder E5 re-validated on this run: translated C vs gcc-compiled real C, bit-for-bit equal outputs on random inputs",
                 "tv": {"%s-%s-%s" % k: {kk: vv for kk, vv in v.items() if kk != "ok"} for k, v in p["tvs"].items() if v["ok"]},
                 "tv_total_cases": total,
-                "translated": {"%s-%s" % k: {"functions": v["funcs"], "ir_instructions": v["ninstr"], "sites": v["nsites"]} for k, v in p["gens"].items() if v["ok"]},
+                "translated": {"%s-%s" % k: {"functions": v["funcs"], "ir_instructions": v["ninstr"], "sites": v["nsites"], "const_address_accesses_not_logged": v["elided"]} for k, v in p["gens"].items() if v["ok"]},
                 "not_covered": META["not_covered"], "prepare_wall_s": p["wall"]})
     # negative controls: the encoder must be able to see a leak
     ctl_q = []
@@ -257,11 +417,9 @@ def extra_checks(tier, repo, builddir):
         if not e["control"]:
             continue
         for opt in e["opts"]:
-            if not p["gens"][(e["name"], opt)]["ok"]:
-                continue
             for sz in e["sizes"]:
-                tv = p["tvs"][(e["name"], opt, sz["tag"])]
-                if tv["ok"] and (tier == "thorough" or (sz["tier"] == "quick" and opt in e["quick_opts"])):
+                tv = p["tvs"].get((e["name"], opt, sz["tag"]))
+                if tv is not None and tv["ok"]:
                     ctl_q.append(mkq(e, opt, sz, tv))
     for q in ctl_q:
         q.witness = False
